@@ -237,6 +237,11 @@ class PythonCryptoEndpoint(CryptoEndpoint, EndpointListener):
                     # We should only get here directly after a created message has been accepted.
                     other = self.relays[relay.circuit_id]
                     self.encrypt_cell(cell, other.direction, other.hop)
+            elif not cell.plaintext:
+                # We hold no session keys (anymore) for this circuit, e.g., an exit socket that is being closed still
+                # receives data from the outside. Never send in the clear what should have been encrypted.
+                self.logger.warning("Dropping outgoing cell for unknown circuit %d", circuit_id)
+                return None
         except CryptoException as e:
             self.logger.warning(str(e))
             return None
